@@ -44,7 +44,7 @@ def build(spec, subst=False, labels=None, nodes=None):
             name = defs.OLD2NEW.get(name, name)
         # children first: same order for the old and the new graph
         kw = {k: build(v, subst, labels, nodes) for k, v in spec["a"].items()}
-        obj = defs.CLASSES[name](**kw)
+        obj = (defs.CLASSES.get(name) or defs.PROBES[name])(**kw)
         if spec.get("meta") is not None:
             setmeta(obj, spec["meta"])
         if nodes is not None:
@@ -142,6 +142,7 @@ def classes_now():
     for name, cls in defs.CLASSES.items():
         xt = cls.__getxpmtype__()
         out.append(dict(py=name, tid=list(xt.identifier.name.encode("utf-8")),
+                        deprecated=bool(xt.deprecated), parent=cls.__bases__[0].__name__,
                         args=[dict(name=list(a.name.encode("utf-8")), ignored=bool(a.ignored),
                                    gen=a.generator is not None, const=bool(a.constant), required=bool(a.required),
                                    default=None if a.default is None else ev(a.default, lambda o: -1))
@@ -223,6 +224,39 @@ def snapshot(wd):
     return tree
 
 
+def index_snapshot(wd):
+    """the experiment indices: xp/<name>/jobs[.bak]/<type>/<id>, links created by the scheduler towards the job
+    directories (read by `orphans`, by the experiment listing): where each entry points and which data it leads to"""
+    out = []
+    jobs = wd / "jobs"
+    for folder in sorted((wd / "xp").glob("*/jobs*")):
+        if not folder.is_dir() or folder.name not in ("jobs", "jobs.bak"):
+            continue
+        for e in sorted(folder.glob("*/*")):
+            if not e.is_symlink():
+                continue
+            target = Path(os.readlink(e))
+            try:
+                rel = list((target if target.is_absolute() else e.parent / target).relative_to(jobs).parts)
+            except ValueError:
+                rel = ["<outside>", str(target)]
+            mk = e / "payload.txt"
+            out.append(dict(xp=folder.parent.name, folder=folder.name, k=[e.parent.name, e.name], target=rel,
+                            mark=mk.read_text() if mk.is_file() else None))
+    return out
+
+
+def orphans_listed(wd):
+    """what `experimaestro orphans <workdir>` (listing only, nothing is removed) reports as not belonging to any experiment"""
+    from click.testing import CliRunner
+    from experimaestro.cli import cli
+    r = CliRunner().invoke(cli, ["orphans", str(wd)])
+    logging.disable(logging.CRITICAL)
+    if r.exception is not None and not isinstance(r.exception, SystemExit):
+        return dict(error=repr(r.exception)[:200])
+    return dict(listed=sorted(l.strip() for l in r.output.splitlines() if "/" in l and not l.startswith("[")))
+
+
 def fresh_id(s):
     return hashlib.sha256(("fresh:" + s).encode()).hexdigest()
 
@@ -298,14 +332,14 @@ class GlobTap:
         tap = self
 
         def glob(path, pattern, **kw):
-            if Path(path) != tap.jobs:          # only the loops over <workdir>/jobs are of interest
+            if Path(path).absolute() != tap.jobs:          # only the loops over <workdir>/jobs are of interest
                 yield from tap.orig(path, pattern, **kw)
                 return
             loop = []
             tap.loops.append(loop)
             for p in tap.orig(path, pattern, **kw):
                 try:
-                    rel = p.relative_to(tap.jobs).parts
+                    rel = p.absolute().relative_to(tap.jobs).parts
                     if len(rel) == 3:
                         loop.append([rel[0], rel[1]])
                 except ValueError:
@@ -320,22 +354,33 @@ class GlobTap:
 
 
 def do_fix(wd, op):
+    """op: [cli-]fix | fixclean | list | listclean, optionally suffixed -rel: the workspace is then designated by a
+    path relative to the current directory, as a user typing `experimaestro deprecated list --fix myworkdir` does"""
     from experimaestro.tools.jobs import fix_deprecated
-    fix = op in ("fix", "fixclean", "cli-fix", "cli-fixclean")
-    cleanup = op in ("fixclean", "listclean", "cli-fixclean", "cli-listclean")
-    with GlobTap(wd / "jobs") as tap:
-        if op.startswith("cli-"):
-            from click.testing import CliRunner
-            from experimaestro.cli import cli
-            args = ["deprecated", "list"] + (["--fix"] if fix else []) + (["--cleanup"] if cleanup else []) + [str(wd)]
-            r = CliRunner().invoke(cli, args)
-            err = None if r.exception is None or isinstance(r.exception, SystemExit) and r.exit_code == 0 else repr(r.exception)
-        else:
-            err = None
-            try:
-                fix_deprecated(wd, fix, cleanup)
-            except Exception as e:  # noqa
-                err = repr(e)
+    base = op[:-4] if op.endswith("-rel") else op
+    fix = base in ("fix", "fixclean", "cli-fix", "cli-fixclean")
+    cleanup = base in ("fixclean", "listclean", "cli-fixclean", "cli-listclean")
+    cwd = os.getcwd()
+    target = wd
+    if op.endswith("-rel"):
+        os.chdir(wd.parent)
+        target = Path(wd.name)
+    try:
+        with GlobTap(wd / "jobs") as tap:
+            if base.startswith("cli-"):
+                from click.testing import CliRunner
+                from experimaestro.cli import cli
+                args = ["deprecated", "list"] + (["--fix"] if fix else []) + (["--cleanup"] if cleanup else []) + [str(target)]
+                r = CliRunner().invoke(cli, args)
+                err = None if r.exception is None or isinstance(r.exception, SystemExit) and r.exit_code == 0 else repr(r.exception)
+            else:
+                err = None
+                try:
+                    fix_deprecated(target, fix, cleanup)
+                except Exception as e:  # noqa
+                    err = repr(e)
+    finally:
+        os.chdir(cwd)
     logging.disable(logging.CRITICAL)
     return dict(op=op, fix=fix, cleanup=cleanup, loops=tap.loops, error=err)
 
@@ -374,10 +419,14 @@ def phase_b(payload):
         res = dict(new=new, manual_applied=mlog, before=snapshot(wd), ops=[])
         # what the repair command recomputes from each params.json (its own loader, the classes as they are now)
         res["recomputed"] = [recompute(jobs / o["type"] / o["id"] / "params.json") for o in old]
+        res["index_before"] = index_snapshot(wd)
         for op in case["ops"]:
             r = do_fix(wd, op)
             r["after"] = snapshot(wd)
+            r["index"] = index_snapshot(wd)
             res["ops"].append(r)
+        if res["index_before"]:
+            res["orphans"] = orphans_listed(wd)
         # re-submits of the replacement graphs
         resub = []
         with experiment(wd, "resubmit", port=-1) as xp:
